@@ -668,6 +668,10 @@ func (p *Program) genFields(f *File, prefix string, max int, o Options, union bo
 		}
 		out = append(out, fd)
 	}
+	if len(out) > 1 && simrt.Flip("fields.shuffle", 0.3) {
+		// declaration order is not identifier order
+		shuffle(out, "fields.order")
+	}
 	return out
 }
 
